@@ -240,6 +240,13 @@ def has_lit(clauses, pattern: str, pos: bool, binds: dict | None = None):
     Returns the bindings (dict) or None."""
     from . import match as M
 
+    if isinstance(pattern, (list, tuple)):
+        # alternatives: [(pattern, polarity), ...] - the first that is established wins
+        for alt, apos in pattern:
+            b = has_lit(clauses, alt, apos, binds)
+            if b is not None:
+                return b
+        return None
     for lit in units(clauses):
         if lit.pos != pos:
             continue
